@@ -638,12 +638,14 @@ class Network(Cached):
         sp_A = sp.coo_matrix(
             (np.ones_like(edges.T[0]), tuple(edges.T)), shape=(N, N))
 
-        #  Extract node weights
-        if "node_weight_nsi" in graph.vs.attribute_names():
-            node_weights = np.array(
-                graph.vs.get_attribute_values("node_weight_nsi"))
-        else:
-            node_weights = None
+        #  Extract node weights (GML keys are alphanumeric: igraph drops the
+        #  underscores of the attribute name when writing that format)
+        node_weights = None
+        for key in ("node_weight_nsi", "nodeweightnsi"):
+            if key in graph.vs.attribute_names():
+                node_weights = np.array(
+                    graph.vs.get_attribute_values(key))
+                break
 
         net = Network(adjacency=sp_A, directed=directed,
                       node_weights=node_weights, silence_level=silence_level)
